@@ -1063,3 +1063,243 @@ Proof.
   - exists 0, false. split; [reflexivity|]. split; [|discriminate].
     intros _ q Hq [HM _]. exact (enf_min_bytes_false b k0 m Em q Hq HM).
 Qed.
+
+(* ---------- needles that are encoded good runes (fixed-distance char / string) ---------- *)
+
+Lemma enf_encode_string_lead ps :
+  Forall enb_good ps -> ps <> [] -> exists x rest, encode_string ps = x :: rest /\ is_cont x = false.
+Proof.
+  intros Hg Hne. destruct ps as [|p ps]; [congruence|]. apply Forall_cons_iff in Hg. destruct Hg as [[Hv _] _].
+  destruct (enf_encode_lead p Hv) as (x & rest & Hx & Hc).
+  exists x, (rest ++ encode_string ps). unfold encode_string. cbn [flat_map]. rewrite Hx. split; [reflexivity|exact Hc].
+Qed.
+
+(* the first occurrence of such a needle at or after sa starts a rune, and no boundary carrying the
+   needle lies before it *)
+Lemma enf_needle_iter b k0 lit ps sa o :
+  lit = encode_string ps -> Forall enb_good ps -> ps <> [] -> (boundary b k0 <= sa)%nat ->
+  (k0 <= length (decode b))%nat ->
+  enb_occ (skipn sa b) lit o -> (forall o', (o' < o)%nat -> ~ enb_occ (skipn sa b) lit o') ->
+  exists kj, (k0 <= kj < length (decode b))%nat /\ (sa + o)%nat = boundary b kj /\
+    (sa + o + length lit <= length b)%nat /\
+    forall n, (sa <= boundary b n)%nat -> (n <= length (decode b))%nat -> enb_occ b lit (boundary b n) -> (kj <= n)%nat.
+Proof.
+  intros Hlit Hg Hne Hsa Hk0 Ho Hfirst.
+  destruct (enf_encode_string_lead ps Hg Hne) as (x & rest & Hx & Hc). rewrite <- Hlit in Hx.
+  unfold enb_occ in Ho. rewrite enb_skipn_skipn in Ho.
+  pose proof (enb_has_prefix_length _ _ Ho) as Hl. rewrite skipn_length in Hl.
+  assert (L : (sa + o < length b)%nat).
+  { rewrite Hx in Hl. cbn [length] in Hl. lia. }
+  assert (Hb : nth (sa + o) b 0 = x).
+  { rewrite (enf_skipn_cons b 0 _ L), Hx in Ho. cbn [en_has_prefix] in Ho. apply andb_true_iff in Ho. lia. }
+  destruct (enf_noncont_boundary b (sa + o) L ltac:(rewrite Hb; exact Hc)) as [kj [Hkj Hbj]].
+  exists kj. split; [split; [apply (enb_boundary_inj_le b); lia|exact Hkj]|]. split; [exact Hbj|]. split; [lia|].
+  intros n Hn Hnl Hon. apply (enb_boundary_inj_le b); [lia|exact Hnl|].
+  destruct (Nat.le_gt_cases (sa + o) (boundary b n)) as [|G]; [lia|].
+  exfalso. apply (Hfirst (boundary b n - sa)%nat); [lia|].
+  unfold enb_occ in *. rewrite enb_skipn_skipn. replace (sa + (boundary b n - sa))%nat with (boundary b n) by lia. exact Hon.
+Qed.
+
+Lemma enf_occ_shift b lit sa n : (sa <= n)%nat -> enb_occ b lit n -> enb_occ (skipn sa b) lit (n - sa).
+Proof.
+  intros H Ho. unfold enb_occ in *. rewrite enb_skipn_skipn. replace (sa + (n - sa))%nat with n by lia. exact Ho.
+Qed.
+
+(* ---------- stringFixedDistanceStringFilter ---------- *)
+
+Lemma enf_string_loop_spec lit dz m b k0 :
+  enb_no_fffd lit -> lit <> [] -> (k0 <= length (decode b))%nat ->
+  forall fuel sa, (boundary b k0 <= sa <= length b)%nat -> (length b + 1 <= fuel + sa)%nat ->
+  exists c ok, en_string_loop fuel lit dz m b (Z.of_nat (boundary b k0)) (Z.of_nat sa) = Ok (c, ok) /\
+    (ok = false -> forall q, (k0 <= q <= length (decode b))%nat ->
+                   (sa <= boundary b (q + Z.to_nat dz))%nat -> ~ enf_fact (FString lit dz m) (runes_of b) q) /\
+    (ok = true -> forall q, (k0 <= q <= length (decode b))%nat ->
+                  (sa <= boundary b (q + Z.to_nat dz))%nat -> enf_fact (FString lit dz m) (runes_of b) q ->
+                  c <= Z.of_nat (boundary b q)).
+Proof.
+  intros Hnf Hne Hk0. set (d := Z.to_nat dz).
+  destruct (enb_no_fffd_good lit Hnf) as [Hlit Hg].
+  assert (Hpsne : runes_of lit <> []).
+  { intros E. rewrite E in Hlit. cbn in Hlit. congruence. }
+  induction fuel as [|f IH]; intros sa Hsa Hf; [lia|].
+  cbn [en_string_loop]. fold d. unfold zlen.
+  assert (Hneedle : forall q, enf_fact (FString lit dz m) (runes_of b) q ->
+            (q + d < length (decode b))%nat /\ enb_occ b lit (boundary b (q + d))).
+  { intros q [_ HF]. fold d in HF. split.
+    - rewrite <- enb_runes_length. apply (enf_str_fact_in_range false lit); [exact Hne|exact HF].
+    - unfold enb_occ. apply enf_lit_bytes; assumption. }
+  destruct (Z.of_nat sa <=? Z.of_nat (length b) - Z.of_nat (length lit)) eqn:E.
+  - rewrite enb_from_nat. pose proof (enf_index_first (skipn sa b) lit) as F.
+    set (offset := en_index (skipn sa b) lit) in *.
+    destruct (offset <? 0) eqn:E2.
+    + exists 0, false. split; [reflexivity|]. split; [|discriminate].
+      intros _ q Hq Hle HF. destruct (Hneedle q HF) as (_ & Ho).
+      exact (enf_first_neg _ _ F ltac:(lia) _ (enf_occ_shift b lit sa _ Hle Ho)).
+    + destruct F as [[F1 _]|[o [F1 [F2 F3]]]]; [lia|].
+      rewrite F1. replace (Z.of_nat sa + Z.of_nat o) with (Z.of_nat (sa + o)) by lia.
+      destruct (enf_needle_iter b k0 lit (runes_of lit) sa o Hlit Hg Hpsne ltac:(lia) Hk0 F2 F3)
+        as (kj & Hkj & Hbj & Hfit & Hmin).
+      assert (Hkq : forall q, enf_fact (FString lit dz m) (runes_of b) q -> (sa <= boundary b (q + d))%nat -> (kj <= q + d)%nat).
+      { intros q HF Hle. destruct (Hneedle q HF) as (Hq & Ho). apply Hmin; [exact Hle|lia|exact Ho]. }
+      rewrite Hbj.
+      destruct (en_candidate_start b (Z.of_nat (boundary b k0)) (Z.of_nat (boundary b kj)) d) as [c|] eqn:Ec.
+      * destruct (en_has_min_bytes b c m) eqn:Em.
+        -- exists c, true. split; [reflexivity|]. split; [discriminate|].
+           intros _ q Hq Hle HF.
+           exact (proj1 (enf_candidate_some b k0 d kj m c q ltac:(lia) Hq (Hkq q HF Hle) Ec)).
+        -- exists 0, false. split; [reflexivity|]. split; [|discriminate].
+           intros _ q Hq Hle HF.
+           pose proof (proj2 (enf_candidate_some b k0 d kj m c q ltac:(lia) Hq (Hkq q HF Hle) Ec) (proj1 HF)). congruence.
+      * replace (Z.of_nat (boundary b kj) + 1) with (Z.of_nat (S (sa + o))) by lia.
+        assert (Hlpos : (1 <= length lit)%nat) by (destruct lit; [congruence|cbn; lia]).
+        destruct (IH (S (sa + o)) ltac:(lia) ltac:(lia)) as (c & ok & Hr & HB & HC).
+        exists c, ok. split; [exact Hr|].
+        assert (Hnext : forall q, (k0 <= q)%nat -> enf_fact (FString lit dz m) (runes_of b) q ->
+                          (S (sa + o) <= boundary b (q + d))%nat).
+        { intros q Hq HF. destruct (Hneedle q HF) as (Hqd & _).
+          pose proof (enf_candidate_none b k0 d kj q ltac:(lia) Hq Ec) as Hlt.
+          pose proof (enb_boundary_lt b kj (q + d) Hlt ltac:(lia)). lia. }
+        split.
+        -- intros Hk q Hq Hle HF. apply (HB Hk q Hq); [apply Hnext; [lia|exact HF]|exact HF].
+        -- intros Hk q Hq Hle HF. apply (HC Hk q Hq); [apply Hnext; [lia|exact HF]|exact HF].
+  - exists 0, false. split; [reflexivity|]. split; [|discriminate].
+    intros _ q Hq Hle HF. destruct (Hneedle q HF) as (_ & Ho).
+    pose proof (enb_has_prefix_length _ _ Ho) as Hl. rewrite skipn_length in Hl. lia.
+Qed.
+
+Lemma enf_spec_string lit dz m : enf_ok (FString lit dz m) -> enf_spec (FString lit dz m).
+Proof.
+  intros (Hd & Hnf & Hne) b k0 Hk0. cbn [en_run_filter].
+  destruct (en_has_min_bytes b (Z.of_nat (boundary b k0)) m) eqn:Em; cbn [negb].
+  - pose proof (boundary_le b k0) as Hle.
+    destruct (enf_string_loop_spec lit dz m b k0 Hnf Hne Hk0 (S (length b)) (boundary b k0) ltac:(lia) ltac:(lia))
+      as (c & ok & Hr & HB & HC).
+    exists c, ok. split; [exact Hr|]. split.
+    + intros Hk q Hq. apply (HB Hk q Hq). apply enb_boundary_mono. lia.
+    + intros Hk q Hq. apply (HC Hk q Hq). apply enb_boundary_mono. lia.
+  - exists 0, false. split; [reflexivity|]. split; [|discriminate].
+    intros _ q Hq [HM _]. exact (enf_min_bytes_false b k0 m Em q Hq HM).
+Qed.
+
+(* ---------- stringFixedDistanceCharFilter ---------- *)
+
+Lemma enf_occ_single t c k : enb_occ t [c] k <-> ((k < length t)%nat /\ nth k t 0 = c).
+Proof.
+  unfold enb_occ. split.
+  - intros H. pose proof (enb_has_prefix_length _ _ H) as Hl. rewrite skipn_length in Hl. cbn [length] in Hl.
+    assert (L : (k < length t)%nat) by lia. split; [exact L|].
+    rewrite (enf_skipn_cons t 0 k L) in H. cbn [en_has_prefix] in H. apply andb_true_iff in H. lia.
+  - intros [L H]. rewrite (enf_skipn_cons t 0 k L). cbn [en_has_prefix]. rewrite H, Z.eqb_refl.
+    destruct (skipn (S k) t); reflexivity.
+Qed.
+
+Lemma enf_index_rune_first t ch :
+  valid_rune ch = true -> ch <> rune_error -> enf_first (enb_occ t (encode ch)) (en_index_rune t ch).
+Proof.
+  intros Hv Hne. unfold en_index_rune. destruct ((0 <=? ch) && (ch <? 128)) eqn:E.
+  - rewrite (enf_encode_ascii ch ltac:(lia)).
+    eapply enf_first_ext; [|apply enf_index_byte_first]. intros k. rewrite enf_occ_single. unfold enf_byte_occ.
+    split; intros [H1 H2]; (split; [exact H1|lia]).
+  - replace (ch =? rune_error) with false by lia. rewrite Hv. cbn [negb]. apply enf_index_first.
+Qed.
+
+Lemma enf_char_loop_spec ch dz m b k0 :
+  ch <> rune_error -> (k0 <= length (decode b))%nat ->
+  forall fuel sa, (boundary b k0 <= sa <= length b)%nat -> (length b + 1 <= fuel + sa)%nat ->
+  exists c ok, en_char_loop fuel ch dz m b (Z.of_nat (boundary b k0)) (Z.of_nat sa) = Ok (c, ok) /\
+    (ok = false -> forall q, (k0 <= q <= length (decode b))%nat ->
+                   (sa <= boundary b (q + Z.to_nat dz))%nat -> ~ enf_fact (FChar ch dz m) (runes_of b) q) /\
+    (ok = true -> forall q, (k0 <= q <= length (decode b))%nat ->
+                  (sa <= boundary b (q + Z.to_nat dz))%nat -> enf_fact (FChar ch dz m) (runes_of b) q ->
+                  c <= Z.of_nat (boundary b q)).
+Proof.
+  intros Hne Hk0. set (d := Z.to_nat dz).
+  destruct (valid_rune ch) eqn:Hv.
+  2:{ (* a rune no string decodes to: never found, and never a fact *)
+    intros fuel sa Hsa Hf. destruct fuel as [|f]; [lia|]. cbn [en_char_loop].
+    assert (E : en_index_rune (en_from b (Z.of_nat sa)) ch = -1).
+    { unfold en_index_rune.
+      assert (Hrange : (0 <=? ch) && (ch <? 128) = false).
+      { pose proof Hv as Hv'. unfold valid_rune, is_surrogate, max_rune in Hv'. lia. }
+      rewrite Hrange. replace (ch =? rune_error) with false by lia. rewrite Hv. reflexivity. }
+    rewrite E. cbn. exists 0, false. split; [reflexivity|]. split; [|discriminate].
+    intros _ q Hq _ [_ HF].
+    pose proof (enb_runes_valid b) as F. rewrite Forall_forall in F.
+    specialize (F ch (nth_error_In _ _ HF)). congruence. }
+  assert (Hg : Forall enb_good [ch]) by (constructor; [split; assumption|constructor]).
+  assert (Hlit : encode ch = encode_string [ch]) by (unfold encode_string; cbn [flat_map]; rewrite app_nil_r; reflexivity).
+  induction fuel as [|f IH]; intros sa Hsa Hf; [lia|].
+  cbn [en_char_loop]. fold d.
+  assert (Hneedle : forall q, enf_fact (FChar ch dz m) (runes_of b) q ->
+            (q + d < length (decode b))%nat /\ enb_occ b (encode ch) (boundary b (q + d))).
+  { intros q [_ HF]. fold d in HF. split.
+    - rewrite <- enb_runes_length. apply nth_error_Some. congruence.
+    - apply enb_rune_nth in HF. destruct HF as [w HF].
+      destruct (enb_rune_bytes b (q + d) ch w HF Hne) as (_ & _ & Hb).
+      unfold enb_occ. rewrite Hb. apply enb_has_prefix_app. }
+  rewrite enb_from_nat. pose proof (enf_index_rune_first (skipn sa b) ch Hv Hne) as F.
+  set (offset := en_index_rune (skipn sa b) ch) in *.
+  destruct (offset <? 0) eqn:E2.
+  - exists 0, false. split; [reflexivity|]. split; [|discriminate].
+    intros _ q Hq Hle HF. destruct (Hneedle q HF) as (_ & Ho).
+    exact (enf_first_neg _ _ F ltac:(lia) _ (enf_occ_shift b _ sa _ Hle Ho)).
+  - destruct F as [[F1 _]|[o [F1 [F2 F3]]]]; [lia|].
+    rewrite F1. replace (Z.of_nat sa + Z.of_nat o) with (Z.of_nat (sa + o)) by lia.
+    destruct (enf_needle_iter b k0 (encode ch) [ch] sa o Hlit Hg ltac:(discriminate) ltac:(lia) Hk0 F2 F3)
+      as (kj & Hkj & Hbj & Hfit & Hmin).
+    assert (Hkq : forall q, enf_fact (FChar ch dz m) (runes_of b) q -> (sa <= boundary b (q + d))%nat -> (kj <= q + d)%nat).
+    { intros q HF Hle. destruct (Hneedle q HF) as (Hq & Ho). apply Hmin; [exact Hle|lia|exact Ho]. }
+    rewrite Hbj.
+    destruct (en_candidate_start b (Z.of_nat (boundary b k0)) (Z.of_nat (boundary b kj)) d) as [c|] eqn:Ec.
+    + destruct (en_has_min_bytes b c m) eqn:Em.
+      * exists c, true. split; [reflexivity|]. split; [discriminate|].
+        intros _ q Hq Hle HF.
+        exact (proj1 (enf_candidate_some b k0 d kj m c q ltac:(lia) Hq (Hkq q HF Hle) Ec)).
+      * exists 0, false. split; [reflexivity|]. split; [|discriminate].
+        intros _ q Hq Hle HF.
+        pose proof (proj2 (enf_candidate_some b k0 d kj m c q ltac:(lia) Hq (Hkq q HF Hle) Ec) (proj1 HF)). congruence.
+    + rewrite enb_from_nat.
+      pose proof (enf_decode_nth b kj ltac:(lia)) as Hn.
+      destruct (decode_rune (skipn (boundary b kj) b)) as [c' w'] eqn:Ed.
+      destruct (enb_boundary_step b kj c' w' Hn) as (HS & Hw & _). cbn [snd].
+      replace (Z.of_nat w' =? 0) with false by lia.
+      replace (Z.of_nat (boundary b kj) + Z.of_nat w') with (Z.of_nat (boundary b (S kj))) by lia.
+      pose proof (boundary_le b (S kj)) as HleS.
+      destruct (IH (boundary b (S kj)) ltac:(lia) ltac:(lia)) as (c & ok & Hr & HB & HC).
+      exists c, ok. split; [exact Hr|].
+      assert (Hnext : forall q, (k0 <= q)%nat -> enf_fact (FChar ch dz m) (runes_of b) q ->
+                        (boundary b (S kj) <= boundary b (q + d))%nat).
+      { intros q Hq HF.
+        pose proof (enf_candidate_none b k0 d kj q ltac:(lia) Hq Ec) as Hlt. apply enb_boundary_mono. lia. }
+      split.
+      * intros Hk q Hq Hle HF. apply (HB Hk q Hq); [apply Hnext; [lia|exact HF]|exact HF].
+      * intros Hk q Hq Hle HF. apply (HC Hk q Hq); [apply Hnext; [lia|exact HF]|exact HF].
+Qed.
+
+Lemma enf_spec_char ch dz m : enf_ok (FChar ch dz m) -> enf_spec (FChar ch dz m).
+Proof.
+  intros (Hd & Hne) b k0 Hk0. cbn [en_run_filter].
+  destruct (en_has_min_bytes b (Z.of_nat (boundary b k0)) m) eqn:Em; cbn [negb].
+  - pose proof (boundary_le b k0) as Hle.
+    destruct (enf_char_loop_spec ch dz m b k0 Hne Hk0 (S (length b)) (boundary b k0) ltac:(lia) ltac:(lia))
+      as (c & ok & Hr & HB & HC).
+    exists c, ok. split; [exact Hr|]. split.
+    + intros Hk q Hq. apply (HB Hk q Hq). apply enb_boundary_mono. lia.
+    + intros Hk q Hq. apply (HC Hk q Hq). apply enb_boundary_mono. lia.
+  - exists 0, false. split; [reflexivity|]. split; [|discriminate].
+    intros _ q Hq [HM _]. exact (enf_min_bytes_false b k0 m Em q Hq HM).
+Qed.
+
+(* ---------- every filter ---------- *)
+
+Theorem enf_filter_sound f : enf_ok f -> enf_spec f.
+Proof.
+  destruct f.
+  - apply enf_spec_prefix.
+  - apply enf_spec_prefixes.
+  - apply enf_spec_ascii_set.
+  - apply enf_spec_set.
+  - apply enf_spec_char.
+  - apply enf_spec_string.
+  - apply enf_spec_lit_loop.
+Qed.
